@@ -6,6 +6,8 @@ use crate::rules::{
 
 use super::verify_no_rule_properties;
 
+use std::collections::HashSet;
+
 #[derive(Default)]
 struct Processor {
     evaluator: Evaluator,
@@ -51,6 +53,15 @@ impl NodeProcessor for Processor {
                 .last_value()
                 .filter(|last_value| self.evaluator.can_return_multiple_values(last_value))
                 .is_some()
+        {
+            return;
+        }
+
+        // moving variables changes which one is visible when a name is declared twice
+        let mut names = HashSet::new();
+        if !assignment
+            .iter_variables()
+            .all(|variable| names.insert(variable.get_name()))
         {
             return;
         }
